@@ -185,6 +185,15 @@ pub fn host() -> BoxedStrategy<HostSpec> {
             }
             HostSpec::Domain(l)
         }),
+        // a fully qualified name written with its trailing dot (an empty last label): a different host string, used as written
+        1 => proptest::collection::vec(label(), 1..3).prop_map(|mut l| {
+            let last = l.last_mut().unwrap();
+            if last.chars().all(|c| c.is_ascii_digit()) {
+                last.insert(0, 'x');
+            }
+            l.push(String::new());
+            HostSpec::Domain(l)
+        }),
         2 => any::<[u8; 4]>().prop_map(HostSpec::V4),
         2 => (0u8..V6_HOSTS.len() as u8).prop_map(HostSpec::V6),
     ]
